@@ -48,6 +48,7 @@ def prepare(w, cases):
             continue
         pkg = os.path.basename(c.harness_rel)
         write_pkg(w, c.harness_rel, c.files, harness_names=c.harness_names, pkg=pkg)
+    tick("generate %d" % len(jobs))
 
 
 def explore(w, report, cases, prop, harness_re, nmax, per_job_timeout, family, nmin=0, sample_every=25,
@@ -152,6 +153,7 @@ def explore(w, report, cases, prop, harness_re, nmax, per_job_timeout, family, n
                     triaged[("new", rel)] = triaged.get(("new", rel), 0) + 1
                     triaged["new_total"] = triaged.get("new_total", 0) + 1
                 triage(w, report, prop, family, c, rel, hname, j["arg"], cx, confirm=confirm)
+    tick("explore %s (%d cases)" % (harness_re, len(good)))
     # cross-validation of sampled paths against the native build
     rels = sorted(samples_by_rel)
     rnd = random.Random(seed)
@@ -170,6 +172,7 @@ def explore(w, report, cases, prop, harness_re, nmax, per_job_timeout, family, n
                     rel, it["harness"], it["arg"], it["model"], eng_notes, nat["fails"], nat["panic"], nat["notes"]))
             else:
                 agg["validated_ok"] += 1
+    tick("native cross-validation")
     agg["externals"] = sorted(externals)
     for rel in rels[:6]:
         for it in samples_by_rel[rel][:2]:
